@@ -337,7 +337,12 @@ def check(spec, tier="quick", seed=1, replay=None):
             proof_broken.append("grep gate: " + "; ".join(bad[:5]))
         propfile = spec["props"]
         files = sorted(cone(propfile))
-        rc, mlog, mcmd = coq_make([propfile + "o"] + [f + "o" for f in spec.get("extra_vo", [])])
+        # the extraction file may use model files outside the theorems' cone (thin instantiation
+        # wrappers): build them too, so that a fresh checkout (no .vo anywhere) extracts
+        ext_deps = sorted(f for f in cone("extract/" + spec["extract"]) if not f.startswith("extract/")) if spec.get("extract") else []
+        targets = [propfile + "o"] + [f + "o" for f in spec.get("extra_vo", [])]
+        targets += [f + "o" for f in ext_deps if f + "o" not in targets and os.path.exists(os.path.join(COQ, f))]
+        rc, mlog, mcmd = coq_make(targets)
         checker_cmds.append("cd /verif/coq && " + mcmd)
         total_ob, per = count_obligations(files)
         discharged = sum(n for f, n in per.items() if os.path.exists(os.path.join(COQ, f + "o"))
